@@ -550,6 +550,52 @@ func RunScenario(sc Scenario) (tr *Trace) {
 		sib.WaitForDisconnect()
 	}
 
+	// "gated" steering (verif hook of the peer package): every sender is held
+	// between its Connected() test and its send on the output queue until the
+	// disconnect is through, then between that send and its look at the quit
+	// channel; one of them is let go first and finds the messages of the others
+	// in the queue.  A gate only delays a goroutine.
+	var gmu sync.Mutex
+	gcond := sync.NewCond(&gmu)
+	arrived1, arrived2, open1, open2 := 0, 0, false, 0
+	if sc.Steer.DiscAt == "gated" {
+		setGate(func(pp *btcpeer.Peer, point string) {
+			if pp != p {
+				return
+			}
+			gmu.Lock()
+			defer gmu.Unlock()
+			switch point {
+			case "queue:checked":
+				arrived1++
+				gcond.Broadcast()
+				for !open1 {
+					gcond.Wait()
+				}
+			case "queue:queued":
+				arrived2++
+				gcond.Broadcast()
+				for open2 == 0 {
+					gcond.Wait()
+				}
+				if open2 > 0 {
+					open2-- // a counted pass; negative: open for everybody
+				}
+			}
+		})
+		defer setGate(nil)
+	}
+	gateWait := func(max time.Duration, pred func() bool) {
+		t := time.AfterFunc(max, func() { gmu.Lock(); gcond.Broadcast(); gmu.Unlock() })
+		defer t.Stop()
+		deadline := time.Now().Add(max)
+		gmu.Lock()
+		for !pred() && time.Now().Before(deadline) {
+			gcond.Wait()
+		}
+		gmu.Unlock()
+	}
+
 	p.AssociateConnection(newConn(rec, &sc))
 
 	var actors sync.WaitGroup
@@ -662,7 +708,9 @@ func RunScenario(sc Scenario) (tr *Trace) {
 				rec.log(Event{E: "qcall", A: id, B: s})
 				p.QueueMessage(msg, chOf[id])
 				rec.log(Event{E: "qret", A: id, B: s})
-				d.jitter()
+				if sc.Steer.DiscAt != "burst" {
+					d.jitter()
+				}
 			}
 		}(s, ids)
 	}
@@ -711,6 +759,71 @@ func RunScenario(sc Scenario) (tr *Trace) {
 				case <-sendersDone:
 				case <-time.After(time.Second):
 				}
+			case "gated":
+				nsend := 0
+				for _, s := range senderNames {
+					if len(sc.Plan[s]) > 0 {
+						nsend++
+					}
+				}
+				qrets := func() int {
+					rec.mu.Lock()
+					defer rec.mu.Unlock()
+					return rec.countLocked(func(e Event) bool { return e.E == "qret" })
+				}
+				gateWait(3*time.Second, func() bool { return arrived1 >= nsend })
+				disconnect()
+				// let start() finish its own drain of the (empty) queues
+				for i := 0; i < 60; i++ {
+					busy := false
+					for _, g := range census() {
+						if g.Proc == "st" || g.Proc == "ng" {
+							busy = true
+						}
+					}
+					if !busy {
+						break
+					}
+					time.Sleep(5 * time.Millisecond)
+				}
+				gmu.Lock()
+				open1 = true
+				gcond.Broadcast()
+				gmu.Unlock()
+				// everybody has either taken the quit branch (returned) or queued its message
+				for i := 0; i < 400; i++ {
+					gmu.Lock()
+					a2 := arrived2
+					gmu.Unlock()
+					if a2+qrets() >= nsend {
+						break
+					}
+					time.Sleep(5 * time.Millisecond)
+				}
+				before := qrets()
+				gmu.Lock()
+				open2 = 1 // one caller goes on and empties the queue
+				gcond.Broadcast()
+				gmu.Unlock()
+				for i := 0; i < 100 && qrets() == before; i++ {
+					time.Sleep(2 * time.Millisecond)
+				}
+				gmu.Lock()
+				open2 = -1
+				gcond.Broadcast()
+				gmu.Unlock()
+				return
+			case "burst":
+				// in the middle of a burst of QueueMessage calls from all senders
+				rec.waitFor(3*time.Second, func() bool {
+					return rec.countLocked(func(e Event) bool { return e.E == "qret" }) >= 12
+				})
+			case "full":
+				// the output queue (50) is full and every sender is parked on it
+				rec.waitFor(3*time.Second, func() bool {
+					return rec.countLocked(func(e Event) bool { return e.E == "qret" }) >= 50
+				})
+				time.Sleep(3 * time.Millisecond)
 			case "stall":
 				select {
 				case <-d.stallArmed:
